@@ -302,8 +302,19 @@ impl<'a> World<'a> {
             self.rep.fault("download_batch_size_zero");
         }
         match &plan.task {
-            Task::RoundTrip { len, repetitive } => {
-                let data = gen_data(plan.seed, *len, *repetitive);
+            Task::RoundTrip { len, repetitive, nested } => {
+                let mut data = gen_data(plan.seed, *len, *repetitive);
+                if *nested && *len >= 3 {
+                    // the content to store is the serialised data map of another file, whose chunks the holders have
+                    let Some((dm_y, chunks_y)) = self.encrypt_and_check(&data) else { return };
+                    self.hold(&dm_y);
+                    for c in &chunks_y {
+                        self.hold(c);
+                    }
+                    data = dm_y.value().to_vec();
+                    self.rep.probe("content_is_a_serialised_data_map");
+                }
+                let len = &data.len();
                 let Some((dm, chunks)) = self.encrypt_and_check(&data) else { return };
                 self.hold(&dm);
                 for c in &chunks {
